@@ -84,6 +84,18 @@ type FSResults struct {
 	jobs    *sync.Map
 }
 
+// load returns the job stored under id for this graph. Job keys are built from
+// sanitized names, so graphs whose names differ only in case or punctuation
+// ("G1"/"g1", "a_b"/"a-b") share keys: the job must also name the graph asked for.
+func (fs *FSResults) load(graph, id string) (*Job, bool) {
+	if v, ok := fs.jobs.Load(jobKey(graph, id)); ok {
+		if vJob := v.(*Job); vJob.Status.Graph == graph {
+			return vJob, true
+		}
+	}
+	return nil, false
+}
+
 func (fs *FSResults) List(graph string) (chan string, error) {
 	out := make(chan string)
 	go func() {
@@ -173,8 +185,7 @@ func (fs *FSResults) Spool(graph string, stream *Stream) (string, error) {
 }
 
 func (fs *FSResults) Stream(ctx context.Context, graph, id string) (*Stream, error) {
-	if v, ok := fs.jobs.Load(jobKey(graph, id)); ok {
-		vJob := v.(*Job)
+	if vJob, ok := fs.load(graph, id); ok {
 		if vJob.Status.State == gripql.JobState_COMPLETE {
 			resultFile := filepath.Join(fs.BaseDir, sanitize.Name(graph), sanitize.Name(id), "results")
 			results, err := os.Open(resultFile)
@@ -211,8 +222,7 @@ func (fs *FSResults) Stream(ctx context.Context, graph, id string) (*Stream, err
 }
 
 func (fs *FSResults) Delete(graph, id string) error {
-	if v, ok := fs.jobs.Load(jobKey(graph, id)); ok {
-		vJob := v.(*Job)
+	if vJob, ok := fs.load(graph, id); ok {
 		if vJob.Status.State == gripql.JobState_RUNNING || vJob.Status.State == gripql.JobState_QUEUED {
 			return fmt.Errorf("Job cancel not yet implemented")
 		}
@@ -224,8 +234,7 @@ func (fs *FSResults) Delete(graph, id string) error {
 }
 
 func (fs *FSResults) Status(graph, id string) (*gripql.JobStatus, error) {
-	if v, ok := fs.jobs.Load(jobKey(graph, id)); ok {
-		vJob := v.(*Job)
+	if vJob, ok := fs.load(graph, id); ok {
 		a := vJob.Status
 		return &a, nil
 	}
